@@ -16,7 +16,7 @@ RULE = ('from_ranges: for LEN in the exhaustive set, EVERY input list of length 
         'in coverage.exhaustive_lengths over the lattice {-inf,-1,-0.0,+0.0,0.5,1,2,+inf,NaN}; for LEN 10/100 random valid lists '
         'with a planted NaN / descent at a random position, truncations and extensions. Model: scan the first LEN+1 items; first '
         'NaN -> NaN; first descent -> NotSorted; too short -> NotEnoughRanges; else Ok with ranges() bit-equal to the prefix and all '
-        'bins zero. with_const_width(a,b): finite a<b over 30 orders of magnitude incl. b=nextafter(a), a=-b, integers: edge_0 == a '
+        'bins zero; a tenth of the inputs are also presented as the head of an UNBOUNDED iterator (must return, polling at most LEN+2 items). with_const_width(a,b): finite a<b over 30 orders of magnitude incl. b=nextafter(a), a=-b, integers: edge_0 == a '
         'exactly, edges non-decreasing, |edge_i - (a+i(b-a)/LEN)| <= 8 ulp(max|a|,|b|) in exact arithmetic, all bins zero. Macro '
         'histograms (stable) and histogram_const (nightly). distinct_nontrivial = distinct (type, input) constructions checked.')
 ASSUME = ['driver faithfully prints construction results', 'model: histmodel.from_ranges (8 lines)']
@@ -32,6 +32,18 @@ def from_ranges_batch(cid, typ, lists):
     return c, marks
 
 
+def unbounded_batch(cid, typ, lists):
+    """from_ranges fed by an unbounded iterator (the list followed by +inf forever): must return, must not read more than
+    LEN+2 items, and must give the verdict of the list's first LEN+1 items (the +inf tail only matters for short lists)."""
+    c = Case(cid, typ, meta={'unbounded': True})
+    marks = []
+    for lst in lists:
+        a = c.op('HRI', 0, lst)
+        b = c.op('O', 0)
+        marks.append((a, b, lst))
+    return c, marks
+
+
 def judge_batch(c, typ, L, marks, recs, res, variant):
     fam = 'histogram_const' if typ.startswith('C') else 'Histogram'
     by_op = {}
@@ -40,17 +52,27 @@ def judge_batch(c, typ, L, marks, recs, res, variant):
     for a, b, lst in marks:
         res.count('evaluations')
         res.count('from_ranges_calls')
-        res.distinct.add(hash((typ, tuple(f2h(x) for x in lst))))
-        want = hm.from_ranges(lst, L)
+        unbounded = bool(c.meta.get('unbounded'))
+        res.distinct.add(hash((typ, unbounded, tuple(f2h(x) for x in lst))))
+        want = hm.from_ranges(list(lst) + ([math.inf] * (L + 2) if unbounded else []), L)
         rr = by_op.get(a, [])
         if not rr:
             res.violation(PROP, '%s:harness' % fam, 'no record for from_ranges(%r)' % lst, c, variant)
             continue
         r = rr[0]
         if r.kind == 'p':
-            res.violation(PROP, '%s:from_ranges:panic' % fam, '%s::from_ranges(%r) panicked: %s' % (typ, lst, r.rest), c, variant)
+            sig = 'reads-unbounded-input' if 'keeps reading an unbounded input' in r.rest else 'panic'
+            res.violation(PROP, '%s:from_ranges:%s' % (fam, sig), '%s::from_ranges(%r%s) panicked: %s' % (
+                typ, lst, ' followed by an endless tail' if c.meta.get('unbounded') else '', r.rest), c, variant)
             continue
         got = r.rest.split()
+        if unbounded:
+            res.count('unbounded_input_calls')
+            polls = [int(t[6:]) for t in got if t.startswith('polls=')]
+            got = [t for t in got if not t.startswith('polls=')]
+            if polls and polls[0] > L + 2:
+                res.violation(PROP, '%s:from_ranges:reads-beyond-needed' % fam,
+                              '%s::from_ranges polled %d items of an unbounded input; only the first LEN+1 = %d matter' % (typ, polls[0], L + 1), c, variant)
         if want[0] == 'err':
             res.count('expected_%s' % want[1])
             if got[0] != 'err' or got[1] != want[1]:
@@ -91,6 +113,13 @@ def shard_lists(desc):
             typ, L, lists = item
         for i in range(0, len(lists), 200):
             c, marks = from_ranges_batch('%s-%d' % (desc['name'], k), typ, lists[i:i + 200])
+            k += 1
+            cases.append(c)
+            plan.append((c, typ, L, marks))
+        # a tenth of the lists again, as the head of an unbounded iterator
+        ul = lists[::10]
+        for i in range(0, len(ul), 200):
+            c, marks = unbounded_batch('%s-u%d' % (desc['name'], k), typ, ul[i:i + 200])
             k += 1
             cases.append(c)
             plan.append((c, typ, L, marks))
@@ -135,7 +164,7 @@ def random_lists(rng, L, n):
 def const_width_pairs(rng, n):
     out = []
     for _ in range(n):
-        kind = rng.choice(['random', 'random', 'adjacent', 'symmetric', 'integers', 'tiny_width', 'wide'])
+        kind = rng.choice(['random', 'random', 'adjacent', 'few_ulps', 'few_ulps', 'symmetric', 'integers', 'tiny_width', 'wide'])
         mag = 10.0 ** rng.uniform(-15, 15)
         if kind == 'random':
             a = rng.choice([-1, 1]) * mag * rng.uniform(0.1, 1)
@@ -144,6 +173,12 @@ def const_width_pairs(rng, n):
             a = rng.choice([-1, 1]) * mag
             b = math.nextafter(a, math.inf)
             if rng.random() < 0.5:
+                b = math.nextafter(b, math.inf)
+        elif kind == 'few_ulps':
+            # end = start + k ulps, k up to a few hundred: neighbouring edges are 0..a few ulps apart
+            a = rng.choice([-1, 1]) * mag * rng.uniform(0.1, 1)
+            b = a
+            for _ in range(rng.randint(1, 400)):
                 b = math.nextafter(b, math.inf)
         elif kind == 'symmetric':
             b = mag
@@ -251,15 +286,15 @@ def run(tier, seed):
                     maxlen -= 1
                 for s in range(nsh):
                     work[s].append(('enum', '%s%d' % (prefix, L), L, maxlen, s, nsh))
-            for L in (10, 100):
-                lists = random_lists(rng, L, int(nrand * frac))
+            for L in (10, 15, 64, 100, 127):
+                lists = random_lists(rng, L, int(nrand * frac * 0.5))
                 for s in range(nsh):
                     work[s].append(('%s%d' % (prefix, L), L, lists[s::nsh]))
             descs = [{'name': 'l%s%d' % (variant[0], s), 'variant': variant, 'binary': binary, 'work': work[s]} for s in range(nsh)]
             total.merge(common.run_shards(shard_lists, descs))
             work = [[] for _ in range(nsh)]
-            for L in (1, 3, 7, 10, 100):
-                prs = const_width_pairs(rng, int(nwidth * frac / 5))
+            for L in (1, 3, 7, 10, 16, 33, 100, 127):
+                prs = const_width_pairs(rng, int(nwidth * frac / 8))
                 for s in range(nsh):
                     work[s].append(('%s%d' % (prefix, L), L, prs[s::nsh]))
             descs = [{'name': 'w%s%d' % (variant[0], s), 'variant': variant, 'binary': binary, 'work': work[s]} for s in range(nsh)]
@@ -267,7 +302,7 @@ def run(tier, seed):
     except common.Inconclusive as e:
         total.inconclusive.append(str(e))
     need = {'expected_ok': 1000, 'expected_NaN': 1000, 'expected_NotSorted': 1000, 'expected_NotEnoughRanges': 500,
-            'const_width_calls': 1000}
+            'const_width_calls': 1000, 'unbounded_input_calls': 1000}
     return common.finish(PROP, tier, seed, total, RULE, t0, ASSUME, min_events=need, exhaustive=True,
                          extra={'builds': [v for v, _ in variants], 'exhaustive_lengths': {str(k): v for k, v in exh.items()}})
 
@@ -279,7 +314,7 @@ def rejudge(case, recs, res, variant, v):
     marks, wmarks = [], []
     for i, o in enumerate(case.ops):
         t = o.split()
-        if t[0] == 'HR':
+        if t[0] in ('HR', 'HRI'):
             marks.append((i, i + 1, [h2f(x) for x in t[2:]]))
         elif t[0] == 'HW':
             wmarks.append((i + 1, h2f(t[2]), h2f(t[3])))
